@@ -229,9 +229,59 @@ func init() {
 				return &TupleV{vs: []Value{&IfaceV{typ: ex.P.errorStringType(), v: &OpaqueV{kind: "sql.Result"}}, nilErr()}}
 			}
 		}
+		// start-up: a constant script of idempotent schema statements (CREATE TABLE / INDEX IF NOT EXISTS) on the
+		// handle is the schema set-up; it is recorded, may fail, and leaves the stored rows alone. A CREATE
+		// without IF NOT EXISTS fails on every restart on the same database; a DROP inside it destroys data.
+		if q, ok := args[1].(*Term); ok {
+			if qs, ok := q.StrVal(); ok {
+				creates, others := 0, 0
+				for _, st := range strings.Split(stripSQLComments(qs), ";") {
+					u := strings.Join(strings.Fields(strings.ToUpper(st)), " ")
+					switch {
+					case u == "":
+					case strings.HasPrefix(u, "CREATE TABLE IF NOT EXISTS "), strings.HasPrefix(u, "CREATE INDEX IF NOT EXISTS "), strings.HasPrefix(u, "CREATE UNIQUE INDEX IF NOT EXISTS "):
+						creates++
+					case strings.HasPrefix(u, "CREATE TABLE "), strings.HasPrefix(u, "CREATE INDEX "), strings.HasPrefix(u, "CREATE UNIQUE INDEX "):
+						creates++
+						ex.W.schemaNotIdempotent++
+					case strings.HasPrefix(u, "DROP TABLE"), strings.HasPrefix(u, "DELETE FROM"), strings.HasPrefix(u, "TRUNCATE"), strings.HasPrefix(u, "UPDATE "):
+						ex.W.tablesDropped++
+					case strings.HasPrefix(u, "INSERT INTO "):
+						// bookkeeping rows (schema version) are fine when idempotent; rows in the five data tables are not
+						t := strings.ToLower(strings.Trim(strings.Fields(u[len("INSERT INTO "):] + " x")[0], "("))
+						if i := strings.Index(t, "("); i >= 0 {
+							t = t[:i]
+						}
+						if t == "promises" || t == "callbacks" || t == "schedules" || t == "locks" || t == "tasks" {
+							ex.W.tablesDropped++
+						} else if !strings.Contains(u, "DO NOTHING") {
+							ex.W.schemaNotIdempotent++
+						}
+					default:
+						others++
+					}
+				}
+				if creates > 0 && others == 0 {
+					ex.W.schemaExecs++
+					if ex.choose(2, nil, "schema-exec-fails") == 1 {
+						return &TupleV{vs: []Value{&IfaceV{}, ex.opaqueErr("sql: schema set-up failed")}}
+					}
+					return &TupleV{vs: []Value{&IfaceV{typ: ex.P.errorStringType(), v: &OpaqueV{kind: "sql.Result"}}, nilErr()}}
+				}
+				if others > 0 && creates > 0 {
+					panic(ex.unsupported("start-up script on the DB handle contains statements other than CREATE/DROP: %.80s", qs))
+				}
+			}
+		}
 		ex.H.violation(ex, "tx-provenance", "statement executed directly on the DB handle instead of the transaction")
 		return &TupleV{vs: []Value{&IfaceV{}, ex.opaqueErr("sql: DB.Exec not modelled")}}
 	}
+	vx("SchemaExecs", func(ex *Exec, fr *Frame, a []Value, s ssa.Instruction) Value {
+		return ex.tt.BV(uint64(ex.W.schemaExecs), 64)
+	})
+	vx("SchemaNotIdempotent", func(ex *Exec, fr *Frame, a []Value, s ssa.Instruction) Value {
+		return ex.tt.BV(uint64(ex.W.schemaNotIdempotent), 64)
+	})
 	intercepts["(*database/sql.DB).Close"] = func(ex *Exec, fr *Frame, args []Value, site ssa.Instruction) Value {
 		ex.W.dbClosed++
 		return nilErr()
@@ -488,4 +538,16 @@ func (ex *Exec) scanRow(vals []SVal, destv Value) Value {
 		ex.store(p, cv)
 	}
 	return nilErr()
+}
+
+func stripSQLComments(q string) string {
+	var b strings.Builder
+	for _, ln := range strings.Split(q, "\n") {
+		if i := strings.Index(ln, "--"); i >= 0 {
+			ln = ln[:i]
+		}
+		b.WriteString(ln)
+		b.WriteString("\n")
+	}
+	return b.String()
 }
